@@ -20,7 +20,6 @@ KF_KINDS = {
     "tz": "schema-timezone-pattern",
     "init-false": "schema-init-false-field",
     "union-pack": "union-speculative-packer",
-    "omit-none-required": "schema-omit-none-required",
     "nt-ovc": "schema-nt-override-in-containers",
 }
 
@@ -276,11 +275,8 @@ class Sites:
                 if not f["init"]:
                     self.out.append((path, "init-false"))
                 fv = getattr(v, f["name"])
-                if cfg.get("omit_none") and fv is None and nullable_spec(G.subst(f["type"], e2)):
-                    # the key is dropped; for a field without default the schema still requires it (known finding)
-                    if f["default"] is None and f["init"]:
-                        self.out.append((path, "omit-none-required"))
-                    continue
+                if cfg.get("omit_none") and fv is None and field_nullable(f, e2):
+                    continue        # the key is dropped (and, since /repo a5aab21, not required)
                 # class-wide option of this owner, overridden per field; nested dataclasses use their own
                 self.base = bool(cfg.get("nt_as_dict"))
                 self.ntd = self.nts = {"as_dict": True, "as_list": False}.get(f.get("nt_override"), self.base)
@@ -329,8 +325,13 @@ class Sites:
 nullable_spec = G.nullable_spec
 
 
+def field_nullable(f, env=None) -> bool:
+    """CodeBuilder.is_field_nullable: nullable type (looking through Annotated/Final, which the specs do not carry) or default None"""
+    return nullable_spec(G.subst(f["type"], env or {})) or (f["default"] is not None and f["default"][1] == "None")
+
+
 VALIDATOR_OF = {"flag": {"enum", "const"}, "set-collision": {"uniqueItems"}, "tz": {"pattern"},
-                "init-false": {"additionalProperties"}, "omit-none-required": {"required"}, "nt-ovc": {"type"}}
+                "init-false": {"additionalProperties"}, "nt-ovc": {"type"}}
 
 
 def explain(err, sites) -> set:
@@ -352,7 +353,7 @@ def explain(err, sites) -> set:
             if "propertyNames" in sp:
                 kinds.add(kind)
         elif err.validator in VALIDATOR_OF[kind]:
-            if kind in ("init-false", "omit-none-required") and "propertyNames" in sp:
+            if kind == "init-false" and "propertyNames" in sp:
                 continue
             kinds.add(kind)
     return kinds
@@ -458,7 +459,9 @@ def run_case(ctx, tbl, root, vspecs, src, probe):
             d = tbl.by_name[pn]
             if args:
                 continue
-            exp_req = [(f["alias"] if f["alias"] is not None else f["name"]) for f in d["fields"] if f["init"] and f["default"] is None]
+            omit = bool((d.get("cfg") or {}).get("omit_none"))
+            exp_req = [(f["alias"] if f["alias"] is not None else f["name"]) for f in d["fields"]
+                       if f["init"] and f["default"] is None and not (omit and field_nullable(f))]
             exp_props = [(f["alias"] if f["alias"] is not None else f["name"]) for f in d["fields"] if f["init"]]
             try:
                 ds = build_schema(m.__dict__[pn], "DRAFT_2020_12", False)
@@ -554,6 +557,14 @@ FIXED_CASES = [
      "@dataclass\nclass Sv(DataClassDictMixin):\n    a: List[Optional[int]]\n    m: Dict[str, Optional[str]]\n    t: Tuple[Optional[int], int]\n"
      "    o: Optional[int] = None\n    class Config(BaseConfig):\n        omit_none = True\n", "Sv",
      ["Sv([1, None], {'k': None}, (None, 2))", "Sv([], {}, (1, 2), 5)"]),
+    ("omit_none owner, required nullable fields",
+     "@dataclass\nclass On(DataClassDictMixin):\n    x: Optional[int]\n    y: Annotated[Optional[str], 'n']\n    z: int\n    a: Any\n"
+     "    w: Literal[1, None] = None\n    class Config(BaseConfig):\n        omit_none = True\n", "On",
+     ["On(None, None, 1, None)", "On(1, 's', 2, [1], 1)", "On(None, 's', 3, 'q', None)"]),
+    ("omit_none owner, unions with a None member",
+     "@dataclass\nclass Ou(DataClassDictMixin):\n    u: Union[int, None, str]\n    v: Annotated[Union[bytes, None, List[int], bool], 'n']\n    k: Union[int, str]\n"
+     "    class Config(BaseConfig):\n        omit_none = True\n", "Ou",
+     ["Ou(None, None, 1)", "Ou('s', [1], 'k')", "Ou(2, None, 3)"]),
     ("same name", "def mk(t):\n    @dataclass\n    class P(DataClassDictMixin):\n        v: t\n    return P\nP1 = mk(int)\nP2 = mk(str)\n"
                   "@dataclass\nclass HP(DataClassDictMixin):\n    a: P1\n    b: P2\n", "HP", ["HP(P1(1), P2('s'))"]),
 ]
@@ -741,7 +752,7 @@ def model_part(ctx: vlib.Ctx):
     br = ctx.theorems("props/C06_schema.vo", ["C06_sound_partial", "C06_tz_pattern", "C06_required_iff_no_default", "C06_satisfiable",
                                               "C06_sound_full_refuted", "C06_flag_refuted", "C06_intkey_refuted", "C06_shared_defs_refuted",
                                               "C06_set_collision_refuted", "C06_init_false_refuted",
-                                              "C06_nt_override_container_refuted", "C06_omit_none_required_refuted",
+                                              "C06_nt_override_container_refuted",
                                               "C06_nt_mode_schema", "C06_nt_mode_pack"], kernels=["K6", "K6N"])
     r = ctx.rng
     want = ctx.budget(150, 1000)
@@ -951,6 +962,69 @@ def alias_part(ctx):
     ctx.count(n=len(cases))
 
 
+def required_part(ctx):
+    """`required` and nullability: kernels K20 (CodeBuilder.is_field_nullable) and K6R (on_dataclass) against the
+    model; (T) validation of both translations on sampled field declarations"""
+    ctx.theorems("props/C06_required.vo", ["K20_spec", "K20_wrappers_transparent", "C06_schema_requires_spec",
+                                           "C06_fnullable_is_K20", "C06_frequired_is_K6R"], kernels=["K20", "K6R"])
+    kr = ctx.kernel_report
+    if not (kr.get("K20", {}).get("ok") and kr.get("K6R", {}).get("ok")):
+        return
+    from mashumaro.core.meta.code.builder import CodeBuilder
+    from mashumaro.jsonschema import build_json_schema
+    r = ctx.rng
+    # (ftype in (Any, NoneType, None), is_optional, union with a None member)
+    cores = [("int", (0, 0, 0)), ("Optional[int]", (0, 1, 1)), ("Any", (1, 0, 0)), ("None", (1, 0, 0)), ("Literal[1, None]", (0, 0, 0)),
+             ("Union[int, None, str]", (0, 0, 1)), ("Union[int, str]", (0, 0, 0)), ("List[Optional[int]]", (0, 0, 0)), ("str", (0, 0, 0))]
+    stacks = [[], ["A"], ["F"], ["F", "A"], ["A", "A"], ["A", "F"]]
+    cases, descr = [], []
+    for _ in range(ctx.budget(60, 300)):
+        core, (anyn, opt, unone) = r.choice(cores)
+        st = r.choice(stacks)
+        dflt = r.choice([None, None, "None", "1"])
+        omit = r.random() < 0.6
+        ts = core
+        for w in reversed(st):
+            ts = f"Annotated[{ts}, 'n']" if w == "A" else f"Final[{ts}]"
+        src = (G.PRELUDE2 + "@dataclass\nclass K(DataClassDictMixin):\n" + f"    x: {ts}" + (f" = {dflt}" if dflt is not None else "")
+               + ("\n    class Config(BaseConfig):\n        omit_none = True" if omit else "") + "\nROOT = K\n")
+        try:
+            m = load_module(src)
+        except Exception:
+            ctx.hist("skipped", "required-sample-unsupported")
+            continue
+        try:
+            cb = CodeBuilder(m.K)
+            cb.reset()
+            ft = cb.get_field_types(include_extras=True)["x"]
+            en = bool(cb.is_field_nullable("x", ft))
+            er = "x" in build_json_schema(m.K).to_dict().get("required", [])
+        except Exception as e:
+            ctx.hist("skipped", "required-sample:" + type(e).__name__)
+            continue
+        finally:
+            unload_module(m)
+        term = f"(FCore (mkCore {'true' if anyn else 'false'} false {'true' if opt else 'false'} {'true' if unone else 'false'}))"
+        for w in reversed(st):
+            term = f"(FAnnotated {term})" if w == "A" else f"(FFinal (Some {term}))"
+        cb_ = lambda b: "true" if b else "false"
+        cases.append(f"({term}, {cb_(dflt == 'None')}, {cb_(dflt is not None)}, {cb_(omit)}, {cb_(en)}, {cb_(er)})")
+        descr.append(f"x: {ts}{' = ' + dflt if dflt else ''} omit_none={omit} -> nullable {en}, required {er}")
+    okf = ("fun c => match c with (t, d, h, o, en, er) => Bool.eqb (is_field_nullable t d) en && "
+           "match schema_requires (KBool h) (KBool o) (KBool (is_field_nullable t d)) with Ok (KBool b) => Bool.eqb b er | _ => false end end")
+    bad, log = vlib.coq_bad_idx("c06_k20", "PyK_nullable", "From VerifGen Require Import K20 K6R.", "", cases, okf,
+                                "fty * bool * bool * bool * bool * bool", shard=500, needs=["gen/K20.vo", "gen/K6R.vo"])
+    name = "K20+K6R-translation-vs-python(is_field_nullable, required)"
+    if bad is None:
+        ctx.correspondence(name, len(cases), -1, log)
+        ctx.not_shown("translation validation K20/K6R", log)
+    else:
+        ctx.correspondence(name, len(cases), len(bad), str([descr[i] for i in bad[:8]]))
+        if bad:
+            ctx.not_shown("translation validation K20/K6R", f"fields {[descr[i] for i in bad[:8]]}")
+    ctx.count(n=len(cases))
+
+
 def fixed_part(ctx):
     """minimal inputs of D11a and of the known findings, always run"""
     for descr, decl, rootsrc, vals in FIXED_CASES:
@@ -995,7 +1069,7 @@ def run_fixed(ctx, descr, src, vals):
 def coqchk_part(ctx: vlib.Ctx):
     """thorough tier: the compiled property files are re-checked by the independent checker coqchk"""
     import re
-    mods = ["VerifProps.C06_schema", "VerifProps.C06_k6", "VerifProps.C06_alias"]
+    mods = ["VerifProps.C06_schema", "VerifProps.C06_k6", "VerifProps.C06_alias", "VerifProps.C06_required"]
     rc, out, secs = vlib.run(["timeout", "1500", "coqchk", "-silent", "-o", "-Q", "theories", "Verif", "-Q", "gen", "VerifGen",
                               "-Q", "props", "VerifProps"] + mods, cwd=vlib.COQ, timeout=1600)
     m = re.search(r"\* Axioms:\s*(.*?)\n\s*\n", out, re.S)
@@ -1024,6 +1098,7 @@ def run(ctx: vlib.Ctx):
     ctx.trusted.append("jsonschema 4.x Draft202012Validator as the standard validator (oracle; jvalid is differentially checked against it)")
     k6_part(ctx)
     alias_part(ctx)
+    required_part(ctx)
     model_part(ctx)
     fixed_part(ctx)
     if not ctx.quick():
